@@ -5,6 +5,7 @@ package service
 
 import (
 	"fmt"
+	"os"
 	"runtime"
 	"sort"
 	"strconv"
@@ -166,8 +167,36 @@ func (s *Sim) noYieldHook(enter bool) {
 }
 
 // settle waits for quiescence and names tasks that appeared since the last step.
+// waitingSince is the monitor tick at which the scheduler entered synctest.Wait (0: not waiting).
+// Ticks are counted by the monitor itself (real time): time.Now inside a bubble is the fake clock.
+var waitingSince atomic.Int64
+var monitorTicks atomic.Int64
+var stallMonitor sync.Once
+
+// startStallMonitor runs outside every bubble: if quiescence is not reached for 5 minutes of real
+// time, some repository goroutine is blocked in a way synctest does not count as durable (a
+// library mutex held by a parked task). That is a limit of the machinery: dump and exit 2.
+func startStallMonitor() {
+	stallMonitor.Do(func() {
+		go func() {
+			for {
+				time.Sleep(10 * time.Second)
+				now := monitorTicks.Add(1)
+				if t := waitingSince.Load(); t != 0 && now-t > 30 {
+					buf := make([]byte, 1<<20)
+					n := runtime.Stack(buf, true)
+					fmt.Fprintf(os.Stderr, "STALL: quiescence not reached for 5 minutes (a goroutine blocked on a non-durable primitive while its holder is parked?)\n%s\n", buf[:n])
+					os.Exit(2)
+				}
+			}
+		}()
+	})
+}
+
 func (s *Sim) settle() {
+	waitingSince.Store(monitorTicks.Load() + 1)
 	synctest.Wait()
+	waitingSince.Store(0)
 	s.mu.Lock()
 	if len(s.fresh) > 0 {
 		sort.SliceStable(s.fresh, func(i, j int) bool { return s.fresh[i].First < s.fresh[j].First })
@@ -352,6 +381,7 @@ func (s *Sim) RunBubble(body func()) (bubbleErr error) {
 	if T == nil {
 		panic("service.T not set: simcheck must run under testing.Main")
 	}
+	startStallMonitor()
 	defer func() {
 		simyield.Hook = nil
 		simyield.ListenHook = nil
